@@ -77,6 +77,11 @@ CLAIMS = {
             'TLC checks round trip, component ranges, negate and compareTo (against neighbours and extremes) for second counts on a stride plus boundaries, decomposition of all sign-consistent int8 (hour, minute) pairs, closure and the 129-step cycle of increment15Minutes over -960..960, and absorption/closure of every increment helper over all 256 byte values; it dumps each row and the real classes must reproduce them; natively every second count -921599..921599 is round-tripped, negated and ordered.',
             'The signed year helper is only required on its documented interval [0, 99].',
             '§4.9, §6-C17'),
+    'C03': ('translation_validation',
+            'translation validation of the real compiler: TLC evaluates the semantics of the *input* lines (TzSem.tla, validated by zic on every source) and judges the run-length traces of every emitted zone interpreted by the matching real processor (ZoneSpecifier for the Python tables; the generated C++ tables compiled and read by Basic/ExtendedZoneProcessor); accounting of zones/links/filter steps',
+            'Sources: the vendored tzdata 2025b release, the source recorded in the shipped tables, seeded generated sources over the documented grammar (zone by zone accepted by zic), seeded single-field mutations. For each source x scope {basic, extended} the real Extractor -> Transformer -> generators run in-process; every input zone and link must be emitted or listed as removed with a reason, every filter step must conserve its input, links must point to emitted zones; the Python tables are interpreted by ZoneSpecifier and the generated C++ tables are compiled into the sweep driver and interpreted by the real processors; each emitted zone\'s trace over [2000, 2050) (bisected to the second) is judged by TLC against TzSem.tla on the input lines.',
+            'zic (glibc 2.36) validates the specification on every source (a disagreement is a machinery failure); generated sources are restricted to constructs zic can also express after 2037; zones carrying a truncation note are excluded from the semantic comparison; a generated source the compiler refuses is "not accepted". One known finding (BasicZoneProcessor, era with named rules beginning at a year boundary).',
+            '§4.3, §4.10, §6-C03'),
 }
 
 PLANNED = {
